@@ -66,6 +66,12 @@ class DecoratedFunction:
         return self._err
 
     @property
+    def globals(self) -> Dict[str, Any]:
+        """ The namespace of the module in which the function was defined (its forward references refer to it). """
+
+        return getattr(inspect.unwrap(self._func), '__globals__', {})
+
+    @property
     def source(self) -> str:
         return self._source
 
